@@ -94,6 +94,13 @@ CLAIMED = {
          "graphs also depends on third-party Display/FromStr pairs and is not decided.",
          "Trusted: syn; rustc MIR; spec/c20_grammar.txt character classes; semver / gix-url / cid / fuel-tx Display-FromStr round-trips.",
          "DESIGN.md §3 C20"),
+ "C30": ("E-MIR", "other", "typestate on path values (MIR provenance: final / sibling / other) in git::fetch, dominance of all file-system effects over the single publishing rename, guard/lock dominance in <git::Pinned as Fetch>::fetch",
+         "Decides the publish discipline: nothing is created or written at or under the directory whose existence means 'complete checkout'; it comes "
+         "into existence only through one fs::rename from a sibling directory, dominated by every other file-system effect of the fetch; the re-use "
+         "guard tests that very path, on the false edge fetches, under the write lock. With rename(2) atomicity this yields the stated property for "
+         "every crash or I/O failure point of the git fetch; registry/ipfs fetches are not covered.",
+         "Trusted: rustc MIR; rename(2) atomic within a directory; fd-lock advisory lock; git2 checkout writes only under target_dir.",
+         "DESIGN.md §3 C30"),
  "C21": ("E-MIR", "proof", "MIR call-graph cone + panic-site enumeration with dominator-checked guard idioms",
          "Every potentially panicking MIR construct reachable from Lock::from_path / Lock::to_graph / source::Pinned::from_str "
          "is enumerated on each run and must be discharged by a machine-checked idiom or a reviewed, exactly keyed site; "
